@@ -115,7 +115,15 @@ def family():
         "defaults")
     add("rec_defaults2", _rec("Dflt2", [f("s", "string", default="dd"), f("r", "int"),
                                         f("e", _enum("De"), default="B")]), "defaults")
+    # an enum that declares a default symbol (a reader-side attribute: writing/validating must not be affected by it)
+    add("enum_default", dict(_enum("Edf"), default="B"), "named", "enumdefault")
+    add("rec_enum_default", _rec("Red", [f("e", dict(_enum("Edr"), default="A")), f("u", ["null", "Edr"]), f("k", "int")]),
+        "rec", "enumdefault")
     # references and namespaces
+    add("map_named_twice", _rec("Mt", [f("one", _rec("It", [f("v", "int")])), f("m", {"type": "map", "values": "It"}),
+                                      f("again", "It")]), "ref", "mapref")
+    add("map_defines_named", _rec("Md", [f("m", {"type": "map", "values": _enum("Em")}), f("e", "Em"),
+                                        f("xs", {"type": "array", "items": "Em"})]), "ref", "mapref")
     add("ref_after_def", _rec("Ref", [f("first", _rec("Pt", [f("x", "int")])), f("second", "Pt"),
                                      f("many", {"type": "array", "items": "Pt"})]), "ref")
     add("ns_inherit", _rec("Outer", [f("in", _rec("Inner", [f("v", "int")])), f("again", "Inner"),
